@@ -14,7 +14,7 @@ pub fn prop() -> Prop {
     Prop {
         id: "C07",
         level: "exploration",
-        rule: "(1) every expression tree of depth <= D over the 13 infix operators and `=` with leaves {a, 1} printed with minimal parentheses from the documented precedence table; (2) calls, indexing and prefix operators in every operand position of every operator; (2b) `als`, `zolang` and `functie` expressions without parentheses as the left and right operand of every operator and (function literals) as the target of a call, in 16 statement and expression contexts (an expression does not end at its closing brace); (2c) length ladders: N blocks / branches / loops / function definitions / parenthesised, bracketed and call expressions one AFTER the other, chains of N operands (one operator; two alternating levels), N elements / arguments / statements, N-deep parentheses, prefix operators, parenthesised assignments and else-if chains, N around every power of two up to 1025 (8193 thorough; deep forms up to 300); (3) every statement tree of the ctrl/fun/mix/heap slices up to N nodes, plain and with `anders als` / `op=` sugar; (4) every `a op= e` for e of depth <= 2 and every else-if chain up to length 3; (5) layout: for a base set of programs every rendering that changes <= d gaps to each alternative separator (each of the 11 white-space code points, a line comment, nothing where maximal munch allows, optional `;` and `,` dropped) and every single redundant parenthesisation. Oracle: the tree returned by the real parser equals the generated tree. Non-trivial = the rendering differs from the default rendering of a smaller case or contains at least two operators/constructs; distinct = distinct texts",
+        rule: "(1) every expression tree of depth <= D over the 13 infix operators and `=` with leaves {a, 1} printed with minimal parentheses from the documented precedence table; (2) calls, indexing and prefix operators in every operand position of every operator; (2b) `als`, `zolang` and `functie` expressions without parentheses as the left and right operand of every operator and (function literals) as the target of a call, in 16 statement and expression contexts (an expression does not end at its closing brace); (2c) length ladders: N blocks / branches / loops / function definitions / parenthesised, bracketed and call expressions one AFTER the other, chains of N operands (one operator; two alternating levels), N elements / arguments / statements, N-deep parentheses, prefix operators, parenthesised assignments and else-if chains, N around every power of two up to 1025 (8193 thorough; deep forms up to 300); (3) every statement tree of the ctrl/fun/mix/heap slices up to N nodes, plain and with `anders als` / `op=` sugar; (3b) every such program of at most 9 tokens written 130 (thorough also 1 100) times one after the other, plain and with sugar: the tree is 130 copies; (4) every `a op= e` for e of depth <= 2 and every else-if chain up to length 3; (5) layout: for a base set of programs every rendering that changes <= d gaps to each alternative separator (each of the 11 white-space code points, a line comment, nothing where maximal munch allows, optional `;` and `,` dropped) and every single redundant parenthesisation. Oracle: the tree returned by the real parser equals the generated tree. Non-trivial = the rendering differs from the default rendering of a smaller case or contains at least two operators/constructs; distinct = distinct texts",
         assumptions: &[
             "the printer's precedence table (printer::prec) is the documented one: * / % > + - > < <= > >= > == != > && || > =",
             "prefix operands are always parenthesised unless atomic (U13)",
@@ -486,12 +486,14 @@ fn run(sh: &mut Shard) {
         sh.running()
     });
     // (3) statement trees of the slices: plain and with sugar; the first few hundred of each also under layout
+    let reps: &[usize] = if tier == Tier::Quick { &[130] } else { &[130, 1100] };
     for sl in slices::slices() {
         if !matches!(sl.name, "ctrl" | "ctrl-local" | "fun" | "mix" | "heap") {
             continue;
         }
         let mut seen = 0u64;
         let name = sl.name;
+        let npre = sl.prelude.len();
         slices::for_each_program(&sl, tier, sh, &mut |sh, prog| {
             seen += 1;
             let toks = printer::tokens(prog);
@@ -503,6 +505,21 @@ fn run(sh: &mut Shard) {
             }
             if seen % 997 == 0 {
                 layout_family(sh, prog, 1);
+            }
+            // the same small program N times one after the other (N above the parser's nesting limit): whatever the
+            // parser counts or remembers while it reads a statement of ANY kind must be given back at its end
+            let unit = &prog[npre.min(prog.len())..];
+            if !unit.is_empty() && printer::tokens(unit).len() <= REPEAT_MAX_TOKENS {
+                for &n in reps {
+                    let mut rep: Vec<Stmt> = Vec::with_capacity(unit.len() * n);
+                    for _ in 0..n {
+                        rep.extend(unit.iter().cloned());
+                    }
+                    case(sh, "repeated", &printer::join_pretty(&printer::tokens(&rep)), &rep, true);
+                    if sug.len() != toks.len() {
+                        case(sh, "repeated", &printer::join_pretty(&printer::tokens_with(&rep, &style)), &rep, true);
+                    }
+                }
             }
             sh.running()
         });
@@ -533,6 +550,8 @@ fn case_or_too_deep(sh: &mut Shard, family: &str, text: &str, tree: &[Stmt], may
         }
     }
 }
+
+const REPEAT_MAX_TOKENS: usize = 9;
 
 fn chain_ladder(sh: &mut Shard) {
     let tier = sh.cfg.tier;
@@ -770,7 +789,7 @@ fn vacuity(m: &Merged) -> Option<String> {
             }
         }
     }
-    for fam in ["trees", "postfix", "compound-operand", "chain-ladder", "op-assign", "else-if", "layout-1", "parens-1", "slice-ctrl", "slice-fun"] {
+    for fam in ["trees", "postfix", "compound-operand", "chain-ladder", "op-assign", "else-if", "layout-1", "parens-1", "slice-ctrl", "slice-fun", "repeated"] {
         if m.counters.get(&format!("family:{fam}")).copied().unwrap_or(0) == 0 {
             return Some(format!("family {fam} produced no case"));
         }
